@@ -111,6 +111,116 @@ def caller_thread_functions(repo: Repo, root: str) -> dict[str, list[str]]:
     return seen
 
 
+def check_kill_on_timeout(ctx: Ctx, oid: str) -> None:
+    """C05.b (also C16.h): the (terminate, kill) pairs of Group.terminate and the timeout arm of safe_terminate"""
+    repo = ctx.repo
+    ft = repo.func("multi.Group.terminate")
+    fs = repo.func("multi.safe_terminate")
+    with ctx.obligation(oid, "kill-on-timeout") as ob:
+        # the function safe_terminate runs in the pool for each (term, kill) pair
+        evs = evaluator(repo, fs)
+        tkq = None
+        tkargs: tuple = ()
+        for _p, st in all_paths(evs):
+            for e in st.calls("spawn"):
+                if len(e.args) >= 3 and e.args[0][0] == "func" and repo.has_func(f"multi.safe_terminate.{e.args[0][1]}"):
+                    tkq, tkargs = f"multi.safe_terminate.{e.args[0][1]}", e.args[1:]
+                elif len(e.args) >= 3 and e.args[0][0] == "sym" and repo.has_func(f"multi.{e.args[0][1]}"):
+                    tkq, tkargs = f"multi.{e.args[0][1]}", e.args[1:]   # a module-level function instead of a closure
+        ob.require(tkq is not None, "safe_terminate: the per-pair function handed to the pool (spawn(termkill, termfunc, killfunc)) not found")
+        tk = repo.func(tkq)
+        ob.require(len(tk.params()) == len(tkargs) >= 2, "termkill does not take (.., termfunc, killfunc)")
+        termp, killp = tk.params()[-2:]
+        # values handed in explicitly instead of being captured: the pool and the timeout
+        to_param = next((pn for pn, a in zip(tk.params(), tkargs) if a == ("sym", "timeout")), "timeout")
+        evk = evaluator(repo, tk, Oracle(repo, tk, precise=True, call_raises=lambda c, f: [("OSError", True)] if callee_attr(c) == "get" else None))
+        nget = ntimeout = 0
+        for path, st in all_paths(evk):
+            sp = [e for e in st.calls("spawn") if e.args and e.args[0] == ("sym", termp)]
+            if len(sp) != 1:
+                ob.violation(tk, tk.node, "termkill does not run the terminate function in the pool")
+                continue
+            gets = [e for e in st.calls("get") if e.recv == sp[0].result]
+            if not gets:
+                if evk.cfg.nodes[path[-1][0]].kind == "return":
+                    ob.violation(tk, tk.node, "termkill does not wait for the terminate function: the kill arm is never reached", construct="no wait for termfunc")
+                continue
+            g = gets[0]
+            nget += 1
+            tt = g.arg(0, "timeout")
+            if tt is None or not term_derived(tt, st.cond[:g.ncond], to_param):
+                ob.violation(tk, g.node, "the wait for the terminate function is not bounded by the timeout: a stuck child is never killed (the kill arm is never reached)")
+            if g.raised:
+                ntimeout += 1
+                after = st.events[st.events.index(g) + 1:]
+                ok = any(e.kind == "call" and e.callee == killp for e in after)
+                ob.site(tk, g.node, "timeout of the terminate function leads to killfunc()", ok=ok)
+                if not ok:
+                    ob.violation(tk, g.node, "when the terminate function times out the kill function is not called: a stuck child is never killed")
+        ob.require(nget >= 1, "termkill: wait for the terminate function (reply.get) not found")
+        if ntimeout == 0:
+            ob.violation(tk, tk.node, "when the terminate function times out the kill function is not called: a stuck child is never killed", construct="no killfunc call")
+        # the pairs built by Group.terminate
+        evt = evaluator(repo, ft)
+        found = None
+        for _p, st in all_paths(evt):
+            for e in st.calls("safe_terminate"):
+                found = (e, st)
+        ob.require(found is not None, "safe_terminate call not found")
+        e, st = found
+        if len(e.args) < 2 or e.args[1] != ("sym", "timeout"):
+            ob.violation(ft, e.node, "terminate does not pass its timeout to safe_terminate")
+        pairs = e.arg(2, "list_of_paired_functions")
+        TOJOIN = ("sym", "self._gateways_to_join")
+        ob.require(pairs is not None and pairs[0] == "comp" and len(pairs[3]) == 1, "terminate: the list of (terminate, kill) pairs handed to safe_terminate is not a comprehension over the to-join list")
+        if pairs[3][0][1] != TOJOIN:
+            ob.violation(ft, e.node, "the exited gateways are not handed to safe_terminate")
+        elt, defs, where = pairs[2], st.defs, ft
+        if elt[0] == "fresh":
+            # the pair is built by a helper: follow it
+            mk = [x for x in st.events if x.kind == "call" and x.result == elt]
+            tgt = repo.resolve_call(mk[0].node, ft) if mk else []
+            ob.require(len(tgt) == 1, "terminate: the helper building the (terminate, kill) pair does not resolve")
+            where = repo.func(tgt[0].qualname)
+            evh = evaluator(repo, where)
+            rets = [(st2.ret, st2.defs) for _p2, st2 in all_paths(evh) if st2.ret is not None]
+            ob.require(len(rets) == 1, "terminate: pair helper has no single return value")
+            elt, defs = rets[0]
+        ob.require(elt[0] == "tuple" and len(elt) == 3, "terminate: (terminate, kill) pair not found")
+        fj, fk = resolve_func(elt[1], defs, repo), resolve_func(elt[2], defs, repo)
+        ob.site(where, e.node, "(term, kill) pair", pair=[show(elt[1]), show(elt[2])])
+        ob.require(fj is not None and fk is not None, "terminate: the functions of the (terminate, kill) pair do not resolve to local functions")
+
+        def io_calls(fn):
+            body = fn.body if isinstance(fn, ast.Lambda) else fn
+            return {callee_attr(c) for c in ast.walk(body) if isinstance(c, ast.Call) and isinstance(c.func, ast.Attribute) and (unparse(c.func.value).endswith("._io") or callee_attr(c) == "join")}
+        jc, kc = io_calls(fj), io_calls(fk)
+        # the receiver thread is joined *before* waiting for the process: for a proxied (via=) member the wait request is
+        # served by the forwarder's only receiver thread, which then cannot dispatch the kill request any more
+        order = [callee_attr(c) for c in sorted((c for c in ast.walk(fj.body if isinstance(fj, ast.Lambda) else fj) if isinstance(c, ast.Call) and isinstance(c.func, ast.Attribute)
+                                                  and (callee_attr(c) == "join" or (callee_attr(c) == "wait" and unparse(c.func.value).endswith("._io")))),
+                                                 key=lambda c: (c.lineno, c.col_offset))]
+        if "join" in order and "wait" in order and order.index("wait") < order.index("join"):
+            ob.violation(where, fj, "join_wait() waits for the process before joining the receiver thread: for a gateway proxied through a via-master the blocking "
+                                    "wait request occupies the forwarder, and the kill sent after the timeout never reaches the hung worker")
+        if "kill" in jc and "kill" not in kc:
+            ob.violation(where, fj, "the (terminate, kill) pair is built in the wrong roles")
+        else:
+            if "kill" not in kc:
+                ob.violation(where, fk, "kill() does not kill the gateway's io/process")
+            if "join" not in jc or "wait" not in jc:
+                ob.violation(where, fj, "join_wait() does not join the receiver and wait for the process")
+        pk = repo.func("gateway_io.Popen2IOMaster.kill")
+        pw = repo.func("gateway_io.Popen2IOMaster.wait")
+        ob.site(pk, None, "Popen2IOMaster.kill -> popen.kill(); wait -> popen.wait()")
+        for f_, meth, msg in ((pk, "self.popen.kill", "Popen2IOMaster.kill does not kill the subprocess"), (pw, "self.popen.wait", "Popen2IOMaster.wait does not reap the subprocess")):
+            evp = evaluator(repo, f_)
+            paths = list(all_paths(evp))
+            if not paths or not all(any(x.kind == "call" and x.callee == meth for x in st_.events) for _pp, st_ in paths):
+                ob.violation(f_, f_.node, msg)
+
+
+
 def check(ctx: Ctx) -> None:
     repo = ctx.repo
     ctx.decides = ("on the direct-call graph from Group.terminate every blocking primitive executed in the caller's thread carries a timeout "
@@ -194,100 +304,7 @@ def check(ctx: Ctx) -> None:
                                  construct=f"{fi.short}: {norm(c)[:80]}", chain=chain)
         ob.require(n >= 3, f"{n} blocking calls found on the terminate path (floor 3)")
 
-    with ctx.obligation("C05.b", "kill-on-timeout") as ob:
-        # the function safe_terminate runs in the pool for each (term, kill) pair
-        evs = evaluator(repo, fs)
-        tkq = None
-        tkargs: tuple = ()
-        for _p, st in all_paths(evs):
-            for e in st.calls("spawn"):
-                if len(e.args) >= 3 and e.args[0][0] == "func" and repo.has_func(f"multi.safe_terminate.{e.args[0][1]}"):
-                    tkq, tkargs = f"multi.safe_terminate.{e.args[0][1]}", e.args[1:]
-                elif len(e.args) >= 3 and e.args[0][0] == "sym" and repo.has_func(f"multi.{e.args[0][1]}"):
-                    tkq, tkargs = f"multi.{e.args[0][1]}", e.args[1:]   # a module-level function instead of a closure
-        ob.require(tkq is not None, "safe_terminate: the per-pair function handed to the pool (spawn(termkill, termfunc, killfunc)) not found")
-        tk = repo.func(tkq)
-        ob.require(len(tk.params()) == len(tkargs) >= 2, "termkill does not take (.., termfunc, killfunc)")
-        termp, killp = tk.params()[-2:]
-        # values handed in explicitly instead of being captured: the pool and the timeout
-        to_param = next((pn for pn, a in zip(tk.params(), tkargs) if a == ("sym", "timeout")), "timeout")
-        evk = evaluator(repo, tk, Oracle(repo, tk, precise=True, call_raises=lambda c, f: [("OSError", True)] if callee_attr(c) == "get" else None))
-        nget = ntimeout = 0
-        for path, st in all_paths(evk):
-            sp = [e for e in st.calls("spawn") if e.args and e.args[0] == ("sym", termp)]
-            if len(sp) != 1:
-                ob.violation(tk, tk.node, "termkill does not run the terminate function in the pool")
-                continue
-            gets = [e for e in st.calls("get") if e.recv == sp[0].result]
-            if not gets:
-                if evk.cfg.nodes[path[-1][0]].kind == "return":
-                    ob.violation(tk, tk.node, "termkill does not wait for the terminate function: the kill arm is never reached", construct="no wait for termfunc")
-                continue
-            g = gets[0]
-            nget += 1
-            tt = g.arg(0, "timeout")
-            if tt is None or not term_derived(tt, st.cond[:g.ncond], to_param):
-                ob.violation(tk, g.node, "the wait for the terminate function is not bounded by the timeout: a stuck child is never killed (the kill arm is never reached)")
-            if g.raised:
-                ntimeout += 1
-                after = st.events[st.events.index(g) + 1:]
-                ok = any(e.kind == "call" and e.callee == killp for e in after)
-                ob.site(tk, g.node, "timeout of the terminate function leads to killfunc()", ok=ok)
-                if not ok:
-                    ob.violation(tk, g.node, "when the terminate function times out the kill function is not called: a stuck child is never killed")
-        ob.require(nget >= 1, "termkill: wait for the terminate function (reply.get) not found")
-        if ntimeout == 0:
-            ob.violation(tk, tk.node, "when the terminate function times out the kill function is not called: a stuck child is never killed", construct="no killfunc call")
-        # the pairs built by Group.terminate
-        evt = evaluator(repo, ft)
-        found = None
-        for _p, st in all_paths(evt):
-            for e in st.calls("safe_terminate"):
-                found = (e, st)
-        ob.require(found is not None, "safe_terminate call not found")
-        e, st = found
-        if len(e.args) < 2 or e.args[1] != ("sym", "timeout"):
-            ob.violation(ft, e.node, "terminate does not pass its timeout to safe_terminate")
-        pairs = e.arg(2, "list_of_paired_functions")
-        TOJOIN = ("sym", "self._gateways_to_join")
-        ob.require(pairs is not None and pairs[0] == "comp" and len(pairs[3]) == 1, "terminate: the list of (terminate, kill) pairs handed to safe_terminate is not a comprehension over the to-join list")
-        if pairs[3][0][1] != TOJOIN:
-            ob.violation(ft, e.node, "the exited gateways are not handed to safe_terminate")
-        elt, defs, where = pairs[2], st.defs, ft
-        if elt[0] == "fresh":
-            # the pair is built by a helper: follow it
-            mk = [x for x in st.events if x.kind == "call" and x.result == elt]
-            tgt = repo.resolve_call(mk[0].node, ft) if mk else []
-            ob.require(len(tgt) == 1, "terminate: the helper building the (terminate, kill) pair does not resolve")
-            where = repo.func(tgt[0].qualname)
-            evh = evaluator(repo, where)
-            rets = [(st2.ret, st2.defs) for _p2, st2 in all_paths(evh) if st2.ret is not None]
-            ob.require(len(rets) == 1, "terminate: pair helper has no single return value")
-            elt, defs = rets[0]
-        ob.require(elt[0] == "tuple" and len(elt) == 3, "terminate: (terminate, kill) pair not found")
-        fj, fk = resolve_func(elt[1], defs, repo), resolve_func(elt[2], defs, repo)
-        ob.site(where, e.node, "(term, kill) pair", pair=[show(elt[1]), show(elt[2])])
-        ob.require(fj is not None and fk is not None, "terminate: the functions of the (terminate, kill) pair do not resolve to local functions")
-
-        def io_calls(fn):
-            body = fn.body if isinstance(fn, ast.Lambda) else fn
-            return {callee_attr(c) for c in ast.walk(body) if isinstance(c, ast.Call) and isinstance(c.func, ast.Attribute) and (unparse(c.func.value).endswith("._io") or callee_attr(c) == "join")}
-        jc, kc = io_calls(fj), io_calls(fk)
-        if "kill" in jc and "kill" not in kc:
-            ob.violation(where, fj, "the (terminate, kill) pair is built in the wrong roles")
-        else:
-            if "kill" not in kc:
-                ob.violation(where, fk, "kill() does not kill the gateway's io/process")
-            if "join" not in jc or "wait" not in jc:
-                ob.violation(where, fj, "join_wait() does not join the receiver and wait for the process")
-        pk = repo.func("gateway_io.Popen2IOMaster.kill")
-        pw = repo.func("gateway_io.Popen2IOMaster.wait")
-        ob.site(pk, None, "Popen2IOMaster.kill -> popen.kill(); wait -> popen.wait()")
-        for f_, meth, msg in ((pk, "self.popen.kill", "Popen2IOMaster.kill does not kill the subprocess"), (pw, "self.popen.wait", "Popen2IOMaster.wait does not reap the subprocess")):
-            evp = evaluator(repo, f_)
-            paths = list(all_paths(evp))
-            if not paths or not all(any(x.kind == "call" and x.callee == meth for x in st_.events) for _pp, st_ in paths):
-                ob.violation(f_, f_.node, msg)
+    check_kill_on_timeout(ctx, "C05.b")
 
     check_explicit_id(ctx, "C05.c")
 
@@ -352,6 +369,28 @@ def check(ctx: Ctx) -> None:
             ob.violation(fu, fu.node, "_unregister does not move the gateway from the member list to the to-join list")
         if not clears:
             ob.violation(ft, ft.node, "the to-join list is not cleared after the join/kill round")
+        # exit() must not raise for a connection that is already gone: terminate() would be aborted before the join/kill round.
+        # Both the termination frame and the close of the write end sit inside a try that swallows OSError
+        from ..cfg import handler_class_names
+        for c in repo.calls_in(ge):
+            if callee_attr(c) not in ("_send", "close_write"):
+                continue
+            caught = False
+            child = c
+            for anc in repo.ancestors(c):
+                if anc is ge.node:
+                    break
+                if isinstance(anc, ast.Try) and any(child is s_ or any(child is y for y in ast.walk(s_)) for s_ in anc.body):
+                    for h in anc.handlers:
+                        names = handler_class_names(repo, ge, h.type) if h.type is not None else ["BaseException"]
+                        if any(n_ in ("OSError", "IOError", "EnvironmentError", "Exception", "BaseException") for n_ in names) \
+                                and not any(isinstance(x, ast.Raise) for x in ast.walk(h)):
+                            caught = True
+                child = anc
+            ob.site(ge, c, f"exit(): {callee_attr(c)} cannot raise out of exit()", swallowed=caught)
+            if not caught:
+                ob.violation(ge, c, f"Gateway.exit lets an OSError of `{norm(c)[:50]}` escape: Group.terminate(timeout) is aborted by a peer that is already gone "
+                                    "and the remaining members are neither joined nor killed")
         # exit(): termination message then close_write, errors swallowed
         names = [callee_attr(c) for c in repo.calls_in(ge)]
         consts = repo.cls("Message").consts
